@@ -12,14 +12,19 @@ RULE = ("(max_dt, current, target) triples (max_dt from 0.001 to 250 s): targets
         "reconfigured-filter: fixed histories of a Python managed filter whose wrapped filter's configured maximum step is changed between moves "
         "(live ConfigView on an edited dict, replaced Config, mutated attribute; tightened and relaxed, forwards and backwards, with and without a reading); "
         "later-generation: in one process, a generation configured with a dict naming a large max_dt_sec is followed by generations with no "
-        "configuration, a dict that does not mention max_dt_sec, and a dict naming another one (C++ constant read back; Python filter driven through a move)")
+        "configuration, a dict that does not mention max_dt_sec, and a dict naming another one (C++ constant read back; Python filter driven through a move); "
+        "several-filters: fixed line-ups of managed filters with DIFFERENT configured maximum steps living in one process and making the SAME moves "
+        "(same start time, same reading times, same output times; coarse before fine, fine before coarse, mixed; one after the other and interleaved "
+        "tick by tick; forwards, backwards, equal times, with and without a reading; both runtimes)")
 NOTE = ["the universal theorems (direction, bounded, sum, no step when equal) are over exact rational arithmetic; the binary64 instance of the "
         "same generic `plan` definition is compared bit-for-bit with both runtimes; float versions of the four clauses are evaluated per run "
         "(tests, with slack 1e-9 + 4 ulp), not proven",
         "C++ header compiled with g++ -std=c++20 -O0 -ffp-contract=off against a recording Impl (no Eigen needed)",
         "reconfigured-filter: the maximum every move is held to is the one configured on the wrapped filter when the move is made (tests, same four clauses)",
         "later-generation: the maximum of a filter generated without naming max_dt_sec is the declared default of the back-end's Config, "
-        "whatever was generated before it in the same process (tests)"]
+        "whatever was generated before it in the same process (tests)",
+        "several-filters: every move of every filter is held to the maximum configured on the filter THAT managed filter wraps, whatever other "
+        "managed filters in the process made the same move before it (tests, same four clauses)"]
 PARTIAL = ["binary64 rounding inside the plan is mirrored (Lean native Float), not proven about",
            "C++: the no-control/no-calibration combination is exercised by C12 only"]
 
@@ -104,7 +109,7 @@ def run(ctx):
     two_segment_ticks(ctx, exe)
     generated_max_dt(ctx)
     reconfigured_filter(ctx)
-    later_generation(ctx)
+    several_filters(ctx, exe)
     return core.finish(ctx, audit, NOTE, RULE, PARTIAL)
 
 
@@ -279,6 +284,76 @@ def later_generation(ctx):
                 ctx.fail("plan:python:later-generation", f"python filter generated with configuration {case['config']} after {case['earlier']} "
                          f"(configured maximum {want!r}): move 2.0 -> {tgt!r}: {bad}", dict(case, segment=[2.0, tgt], steps=list(steps)))
                 break
+
+
+def several_filters(ctx, exe):
+    """several managed filters in ONE process, wrapping filters with different configured maximum steps, make the same moves (same
+    start time, same reading stamps, same output times - a bank of filters fed from one log): every move of each is held to ITS OWN
+    configured maximum, whoever made that move before. Inputs are fixed; consumes nothing from ctx.rng"""
+    from formak import runtime
+    # (line-up of MAXDTS indices in the order the filters are built and ticked, start time, ticks = (reading time or None, output time))
+    K = {m: i for i, m in enumerate(rh.MAXDTS)}
+    lineups = [
+        ([K[1.0], K[0.25], K[0.1], K[0.013]], 41.375, [(None, 43.4), (None, 40.3), (42.1, 42.875), (None, 42.1), (41.0, 39.5)]),
+        ([K[0.013], K[0.05], K[10.0], K[0.1]], -17.0625, [(None, -17.0625), (-16.0, -15.45), (None, -18.2), (None, -16.0), (-16.5, -16.5)]),
+        ([K[250.0], K[10.0], K[0.05], K[1.0], K[0.001]], 3000.5, [(None, 3003.25), (3001.0, 2999.75), (None, 3000.5), (3000.5, 3002.0)]),
+        ([K[0.25], K[0.25], K[0.1], K[0.25]], 0.71875, [(None, 1.96875), (1.0, 0.21875), (None, 1.33)]),
+    ]
+
+    def judge(name, how, lineup, pos, t0, ticks, logs):
+        """logs[j] = the whole call log returned by tick j (the held log, then the steps to the output time)"""
+        m = rh.MAXDTS[lineup[pos]]
+        earlier = [rh.MAXDTS[k] for k in lineup[:pos]]
+        held_t, held_len = t0, 0
+        for j, ((ts, out), log) in enumerate(zip(ticks, logs)):
+            case = {"stream": "several-filters", "runtime": name, "how": how, "max_dt": m, "made_the_same_moves_before": earlier,
+                    "t0": t0, "tick": j, "reading_at": ts, "output": out}
+            ctx.case(case, True); ctx.traces += 1; ctx.count("stream=several-filters")
+            ctx.count("several-filters:" + ("first" if not earlier else "after-coarser" if max(earlier) > m else "after-finer-or-equal"))
+            rt = "python" if name == "python" else "cpp"
+            if not isinstance(log, list) or len(log) < held_len or not all(isinstance(c, str) for c in log):
+                ctx.fail(f"plan:{rt}:several-filters", f"{name}: tick {j} did not return the estimate built on the held one", case); return
+            segs = rh.segments_of(log[held_len:])
+            if len(segs) != (2 if ts is not None else 1):
+                ctx.fail(f"plan:{rt}:several-filters", f"{name}: tick {j}: {len(segs) - 1} sensor update(s) for {0 if ts is None else 1} reading(s)", case); return
+            moves = [(held_t, ts, segs[0]), (ts, out, segs[1])] if ts is not None else [(held_t, out, segs[0])]
+            if ts is not None:
+                held_t, held_len = ts, held_len + len(segs[0]) + 1
+            for cur, tgt, dts in moves:
+                bad = rh.plan_oracle(m, cur, tgt, dts)
+                if bad:
+                    ctx.fail(f"plan:{rt}:several-filters", f"{name}, {how}, configured maximum {m!r}, after filters with maxima {earlier} made the same "
+                             f"moves: move {cur!r} -> {tgt!r}: {bad}",
+                             dict(case, segment=[cur, tgt], steps=dts if len(dts) <= 50 else {"n": len(dts), "first": dts[:3], "last": dts[-3:]}))
+                    return
+
+    def tick(mf, ts, out):
+        r = mf.tick(out, control="u", readings=[runtime.StampedReading(ts, 0)] if ts is not None else None)
+        return rh.flatten(r.state)
+
+    for lineup, t0, ticks in lineups:
+        # one after the other: each filter lives through the whole history before the next is built
+        for pos, k in enumerate(lineup):
+            mf = runtime.ManagedFilter(rh.RecEkf(rh.MAXDTS[k], 1), t0, (), None)
+            judge("python", "one after the other", lineup, pos, t0, ticks, [tick(mf, ts, out) for ts, out in ticks])
+        # interleaved: all alive at once, shifted by a quarter second so that these are moves nobody has made yet
+        t1, ticks1 = t0 + 0.25, [(None if ts is None else ts + 0.25, out + 0.25) for ts, out in ticks]
+        mfs = [runtime.ManagedFilter(rh.RecEkf(rh.MAXDTS[k], 1), t1, (), None) for k in lineup]
+        logs = [[] for _ in lineup]
+        for ts, out in ticks1:
+            for pos, mf in enumerate(mfs):
+                logs[pos].append(tick(mf, ts, out))
+        for pos in range(len(lineup)):
+            judge("python", "interleaved tick by tick", lineup, pos, t1, ticks1, logs[pos])
+    if exe:
+        # the C++ runtime: the same line-ups in one process of the trace driver (one managed filter per line-up position)
+        for combo in (0, 3):
+            jobs = [(rh.NCOMBO * k + combo, t0, [{"out": out, "readings": [(ts, 0)] if ts is not None else []} for ts, out in ticks])
+                    for lineup, t0, ticks in lineups for k in lineup]
+            res = iter(rh.cpp_run(exe, jobs))
+            for lineup, t0, ticks in lineups:
+                for pos in range(len(lineup)):
+                    judge(f"cpp[{rh.COMBOS[combo]}]", "one after the other", lineup, pos, t0, ticks, next(res))
 
 
 def two_segment_ticks(ctx, exe):
